@@ -190,90 +190,4 @@ theorem decNumRemoteResetStreams_keep (c c' : Counts) (h : c.decNumRemoteResetSt
   | zero => simp [Streams.clearPendingOpen]
   | succ n ih => unfold Streams.clearPendingOpen; view_auto
 
-/-- `pop_frame`'s loop body with the recursive call abstracted (`popFrame_succ` checks by `rfl`
-    that it is the body of the model's `popFrame`, literally) -/
-def popBody (rec : Streams → Nat → Streams × Option Streams.OutFrame) (s : Streams) (maxLen : Nat) :
-    Streams × Option Streams.OutFrame :=
-  match s.qPop .pendingSend with
-  | (s, none) => (s, none)
-  | (s, some id) =>
-    let st := s.stream id
-    let isPendingReset := st.isPendingResetExpiration
-    let finish := fun (s : Streams) (f : Streams.OutFrame) =>
-      let st := s.stream id
-      let s := if !st.pendingSend.isEmpty || st.state.isScheduledReset then (s.qPush .pendingSend id).1 else s
-      (s.transitionAfter id isPendingReset, some f)
-    match st.pendingSend with
-    | .data sz eos :: rest =>
-      let discard : Bool := match st.state.getScheduledReset with
-        | some reason => reason != NO_ERROR
-        | none => false
-      if discard then
-        let s := (s.clearQueue id).reclaimAllCapacity id
-        rec (s.qPush .pendingSend id).1 maxLen
-      else
-        let streamCapacity := st.sendFlow.available
-        if sz > 0 && streamCapacity.eqUsize 0 then
-          rec s maxLen
-        else
-          let len := usizeAsU32 (min (min sz maxLen) streamCapacity.asSize)
-          if len > 0 && len > st.sendFlow.windowSz then
-            rec s maxLen
-          else
-            let s := s.modStream id fun st => { st with pendingSend := rest }
-            let (st', w, bad) := (s.stream id).sendData len s.prio.maxBufferSize
-            let s := (s.setStream st').wake w
-            let s := if bad then s.panic "assertion failed: self.window_size.0 >= sz as i32 (stream)" else s
-            let s := s.modPrio fun p => { p with flow := (p.flow.assignCapacity len).1 }
-            let (fl, r) := s.prio.flow.sendData len
-            let s := s.modPrio fun p => { p with flow := fl }
-            let s := match r with
-              | .error .assertFailed => s.panic "assertion failed: self.window_size.0 >= sz as i32 (connection)"
-              | _ => s
-            let flagEos := if sz > len then false else eos
-            finish s (.data len flagEos { key := id, sid := st.id, rest := sz - len, eos := eos })
-    | .headers heos fields :: rest =>
-      finish (s.modStream id fun st => { st with pendingSend := rest }) (.headers st.id heos fields)
-    | .reset reason :: rest =>
-      finish (s.modStream id fun st => { st with pendingSend := rest }) (.reset st.id reason)
-    | .pushPromise pk pid fields :: rest =>
-      let s := s.modStream id fun st => { st with pendingSend := rest }
-      match s.store.findKey? pid with
-      | none =>
-        let st := s.stream id
-        let s := if !st.pendingSend.isEmpty || st.state.isScheduledReset then (s.qPush .pendingSend id).1 else s
-        rec (s.transitionAfter id isPendingReset) maxLen
-      | some pushed =>
-        let _ := pk
-        let s := s.modStream pushed fun st => { st with isPendingPush := false }
-        let s :=
-          if !(s.stream pushed).pendingSend.isEmpty then
-            if s.counts.canIncNumSendStreams then (((s.incNumSendStreams pushed).qPush .pendingSend pushed).1)
-            else s.queueOpen pushed
-          else s
-        finish s (.pushPromise st.id pid fields)
-    | [] =>
-      match st.state.getScheduledReset with
-      | some reason =>
-        let s := s.modStreamW id fun st => st.setReset reason .library
-        finish s (.reset st.id reason)
-      | none =>
-        rec (s.transitionAfter id isPendingReset) maxLen
-
-theorem popFrame_succ (fuel : Nat) (s : Streams) (maxLen : Nat) :
-    Streams.popFrame (fuel + 1) s maxLen = popBody (Streams.popFrame fuel) s maxLen := rfl
-
-theorem popFrame_zero (s : Streams) (maxLen : Nat) : Streams.popFrame 0 s maxLen = (s, none) := rfl
-
-theorem view_popBody (rec : Streams → Nat → Streams × Option Streams.OutFrame)
-    (hrec : ∀ s m, view (rec s m).1 = view s) (s : Streams) (maxLen : Nat) :
-    view (popBody rec s maxLen).1 = view s := by
-  unfold popBody; dsimp only; view_auto
-
-@[simp] theorem view_popFrame (fuel : Nat) (s : Streams) (maxLen : Nat) :
-    view (Streams.popFrame fuel s maxLen).1 = view s := by
-  induction fuel generalizing s with
-  | zero => rfl
-  | succ n ih => rw [popFrame_succ]; exact view_popBody _ ih s maxLen
-
 end H2V.Lemmas.ConnCtlP
